@@ -123,7 +123,7 @@ def run(tier, seed):
             for cap in (-1, k * maxf):
                 a = dict(r)
                 a.update({"id": r["id"] * 10 + (0 if cap < 0 else 1), "want": "any", "k": k, "tol": 0, "obj": 0,
-                          "acccap": 2 * k * maxf + 2, "maxslack": k * maxf, "prodcap": cap, "_src": r["id"]})
+                          "acccap": 2 * k * maxf + 2, "maxslack": k * maxf, "prodcap": cap, "repcaps": [], "_src": r["id"]})
                 probe.append(a)
     if probe:
         wit = P.adversary("Adv_Fit", probe, res)
@@ -176,7 +176,7 @@ def replay(path, seed):
             for cap in (-1, k * maxf):
                 a = dict(r)
                 a.update({"id": r["id"] * 10 + (0 if cap < 0 else 1), "want": "any", "k": k, "tol": 0, "obj": 0,
-                          "acccap": 2 * k * maxf + 2, "maxslack": k * maxf, "prodcap": cap, "_src": r["id"]})
+                          "acccap": 2 * k * maxf + 2, "maxslack": k * maxf, "prodcap": cap, "repcaps": [], "_src": r["id"]})
                 probe.append(a)
     if probe:
         wit = P.adversary("Adv_Fit", probe, res)
